@@ -220,7 +220,9 @@ def run_impl(cases):
 
 
 def run_all(cases, scratch, run_impl_parallel):
-    runs = [run_impl_parallel(ID, cases, scratch, hashseed=str(s), extra_env={"VERIF_SHUFFLE": str(s)}) for s in SEEDS]
+    import concurrent.futures
+    with concurrent.futures.ThreadPoolExecutor(2) as ex:      # two hash seeds at a time (each run already uses several processes)
+        runs = list(ex.map(lambda s: run_impl_parallel(ID, cases, scratch, hashseed=str(s), extra_env={"VERIF_SHUFFLE": str(s)}), SEEDS))
     out = copy.deepcopy(runs[0])
     for i, o in enumerate(out):
         for s, r in zip(SEEDS[1:], runs[1:]):
